@@ -37,6 +37,15 @@ def gen_tree(ctx):
         for _ in range(rnd.randint(1, 4)):
             ty = rnd.choice(G.TYPES)
             fs[G.file_name(rnd, ty)] = G.unit(rnd, ctx.tables, ty, near_miss=0.05)
+    # size dimension: lines and files around the buffer sizes on the way out (1 KiB line buffer of stdout, 8 KiB BufWriter,
+    # 64 KiB pipe): the last rendered line of a container is its ExecStart
+    if rnd.random() < 0.5:
+        target = rnd.choice([900, 1000, 1024, 1100, 2000, 8100, 8200, 9000, 66000])
+        arg = 'PodmanArgs=--label=' + 'x' * 30 + '\n'
+        big = '[Container]\nImage=localhost/big\n' + arg * max(1, target // 40)
+        if rnd.random() < 0.5:
+            big += '[Unit]\nDescription=' + 'd' * rnd.choice([1023, 1024, 5000]) + '\n'
+        fs['big%d.container' % target] = big
     for n, t in fs.items():
         if rnd.random() < 0.4:
             t += '[Install]\n' + rnd.choice(['WantedBy=default.target\n', 'WantedBy=a.target b.target\nAlias=foo.service\n', 'RequiredBy=x.service\nAlias=sub/dir/y.service\n',
